@@ -247,12 +247,9 @@ def r10_5(ctx):
         mv = [c for c in walk_no_nested(g.node) if is_call_to(c, "move_to_end", "self._initial")]
         sc = ctx.scope(g)
         ok = len(mv) == 1 and [ast.unparse(t) for t, p in sc.guards(mv[0]) if p] == ["priority"] and ast.unparse(mv[0].args[0]) == g.params[0]
-        if ok:
-            # to the FRONT: the table is applied in one pass after transcription, so the newest entry (possibly a horizon
-            # guess) must be applied before the time-dependent guesses recorded earlier
-            last = [k.value for k in mv[0].keywords if k.arg == "last"] + list(mv[0].args[1:2])
-            ok = len(last) == 1 and isinstance(last[0], ast.Constant) and last[0].value is False
-        ctx.check(ok, "Stage.set_initial orders prioritised guesses first", detail="newest guess applied last: a horizon guess given after time-dependent guesses is applied after they were evaluated", expected="if priority: self._initial.move_to_end(var, last=False)", found="; ".join(ast.unparse(m) for m in mv), fi=g)
+        # (whether the entry moves to the front or to the end is not decided: since the guess table is applied twice on
+        # every path -- R10.2 / R10.10 -- time-dependent guesses see the final horizon either way)
+        ctx.check(ok, "Stage.set_initial orders prioritised guesses first", detail="ordering", expected="if priority: self._initial.move_to_end(var, last=False)", found="; ".join(ast.unparse(m) for m in mv), fi=g)
     sc = ctx.scope(f)
     wt = [c for c in walk_no_nested(f.node) if is_call_to(c, "set_initial", "self._method") or is_call_to(c, "apply_initial", "self._method")]
     nf = ctx.norm(f)
